@@ -158,7 +158,11 @@ def run(ctx):
     ctx.instance(R4, "clord_next[callers]", sorted(users) == sorted([f"{CLS}.new_req", f"{CLS}.cancel_req", f"{CLS}.replace_req"]),
                  f"clord_next is called from {sorted(users)}", loc(cn))
     cr = repo.func(f"{CLS}.clord_root")
-    ok = "RE_CLORD_ROOT.match(clord_id)" in unparse(cr) and "return match[1]" in unparse(cr) and "return clord_id" in unparse(cr)
+    cparam = cr.args.args[-1].arg
+    mname = next((unparse(n.targets[0]) for n in walk_no_nested(cr) if isinstance(n, ast.Assign) and isinstance(n.targets[0], ast.Name)
+                  and unparse(n.value) in (f"RE_CLORD_ROOT.match({cparam})", f"RE_CLORD_ROOT.fullmatch({cparam})")), None)
+    rets = [unparse(r.value) for r in walk_no_nested(cr) if isinstance(r, ast.Return) and r.value is not None]
+    ok = mname is not None and sorted(rets) == sorted([f"{mname}[1]", cparam]) or (mname is not None and sorted(rets) == sorted([f"{mname}.group(1)", cparam]))
     ctx.instance(R4, "clord_root[group 1 of the root regex, else the id itself]", ok, "clord_root no longer returns group 1 of RE_CLORD_ROOT (or the id when it has no suffix)", loc(cr))
 
     # ------------------------------------------------------------------ rule 5
@@ -220,6 +224,13 @@ def typestate(ctx, R2, repo, fo):
     for kind, q in handlers.items():
         fn = repo.func(q)
         g = CFG(fn)
+        mp = fn.args.args[1].arg
+        NEW = next((unparse(n.targets[0]) for n in walk_no_nested(fn) if isinstance(n, ast.Assign) and isinstance(n.targets[0], ast.Name)
+                    and isinstance(n.value, ast.Call) and unparse(n.value.func).endswith("change_status")), "?")
+        EXEC = next((unparse(n.targets[0]) for n in walk_no_nested(fn) if isinstance(n, ast.Assign) and isinstance(n.targets[0], ast.Name)
+                     and unparse(n.value) == f"{mp}[FTag.ExecType]"), "?")
+        OST = next((unparse(n.targets[0]) for n in walk_no_nested(fn) if isinstance(n, ast.Assign) and isinstance(n.targets[0], ast.Name)
+                    and unparse(n.value) == f"{mp}[FTag.OrdStatus]"), "?")
         clears = [(n, path_facts(g, n.id)) for n in g.nodes if n.kind == "stmt" and unparse(n.ast) == "self.orig_clord_id = None"]
         restores = [(n, path_facts(g, n.id)) for n in g.nodes if n.kind == "stmt" and unparse(n.ast) == "self.clord_id = self.orig_clord_id"]
         sets = [(n, path_facts(g, n.id)) for n in g.nodes if n.kind == "stmt" and isinstance(n.ast, ast.Assign) and unparse(n.ast.targets[0]) == "self.status"]
@@ -240,11 +251,9 @@ def typestate(ctx, R2, repo, fo):
                     new = ms_name
                     if new in PENDING or not permitted(new):
                         continue
-                    env = {"new_status is not None": True, "new_status": True, "self.orig_clord_id": True,
-                           "exec_type == FExecType.REPLACED": ename == "REPLACED", "order_status == FOrdStatus.REJECTED": ms_name == "REJECTED",
-                           "m.msg_type != FMsg.EXECUTIONREPORT": False, "m.msg_type != FMsg.ORDERCANCELREJECT": False,
-                           f"m.msg_type == FMsg.{kind}": True,
-                           "clord_id != self.clord_id and clord_id != self.orig_clord_id": False}
+                    env = {f"{NEW} is not None": True, NEW: True, "self.orig_clord_id": True,
+                           f"{mp}.msg_type != FMsg.EXECUTIONREPORT": False, f"{mp}.msg_type != FMsg.ORDERCANCELREJECT": False,
+                           f"{mp}.msg_type == FMsg.{kind}": True}
 
                     def holds(fs):
                         """True iff every guard fact of the site is known to hold for this (status, ExecType, OrdStatus) cell; None when a fact is outside the model."""
@@ -253,8 +262,8 @@ def typestate(ctx, R2, repo, fo):
                             if atom in env:
                                 val = env[atom]
                             else:
-                                m1 = re.fullmatch(r"order_status (==|!=) FOrdStatus\.(\w+)", atom)
-                                m2 = re.fullmatch(r"exec_type (==|!=) FExecType\.(\w+)", atom)
+                                m1 = re.fullmatch(rf"{re.escape(OST)} (==|!=) FOrdStatus\.(\w+)", atom)
+                                m2 = re.fullmatch(rf"{re.escape(EXEC)} (==|!=) FExecType\.(\w+)", atom)
                                 m3 = re.fullmatch(r"self\.orig_clord_id is (not )?None", atom)
                                 if m1:
                                     val = (ms_name == m1.group(2)) == (m1.group(1) == "==")
@@ -381,7 +390,8 @@ def report_absorbed(ctx, R7, repo, fo):
         src = set()
         for n in nodes:
             src |= tag_source(n.ast.value)
-        ok = bool(nodes) and src == {tag} and all(("exec_type == FExecType.REPLACED", True) in path_facts(g, n.id) for n in nodes)
+        ok = bool(nodes) and src == {tag} and all(any(tv and re.fullmatch(r"\w+ == FExecType\.REPLACED", a) and tag_source(ast.parse(a.split(" ")[0], mode="eval").body) == {"150"}
+                                                         for a, tv in path_facts(g, n.id)) for n in nodes)
         ctx.instance(R7, f"process_execution_report[{attr} := tag {tag} on REPLACED]", ok,
                      f"{attr} is not taken from tag {tag} of a REPLACED report (sources {sorted(x for x in src if x)})", loc(fn))
     # admission test
